@@ -7,7 +7,7 @@ From GoCar Require Import Bytes Varint Cid Header Frame V2Header Scan Val RunSca
    srckind: 0 bytes.Reader, 1 *os.File, 2 plain io.Reader (counting, chunked),
             3 counting Read+ReadByte+Seek, 4 counting Read+Seek.
    The high-water mark is observable for kinds 2..4 only (printed as 0 otherwise).
-   expect: (tvalid blocks base payload_len) | (ttrunc nonboundary) | (tnone) *)
+   expect: (tvalid blocks base payload_len) | (ttrunc nonboundary [blocks base payload_len]) | (tnone) *)
 Definition brpos_seek (k : N) : bool := negb (k =? 2).
 Definition brpos_hwobs (k : N) : bool := 2 <=? k.
 
@@ -125,6 +125,17 @@ Definition prop_brpos (input obs : val) : val :=
        section (C02's truncation clause, for the walker C02's own check does not drive) *)
     if opened && vbool (vnth 1 expect) && is_tag (vnth 1 endv) "eof"
     then VL [VT "FAIL"; VT "truncation-reported-as-clean-eof"; VT "skipnext-after-length-varint"]
+    else if opened && negb (length (vL expect) <? 5)%nat then
+      (* (ttrunc inside blocks base payload_len): whatever steps the walk over the prefix made must
+         be the exact first steps of the walk over the whole archive
+         (C14_walk_over_a_prefix_is_the_prefix_of_the_walk) *)
+      let bs := vblocks (vnth 2 expect) in
+      let base := vN (vnth 3 expect) in
+      let plen := vN (vnth 4 expect) in
+      match check_steps o file base (base + plen) w bs steps (plen - blen (enc_sections bs)) with
+      | Some clause => VL [VT "FAIL"; VT "prefix-walk-differs"; VT clause]
+      | None => VT "ok"
+      end
     else VT "ok"
   else VT "ok".
 
